@@ -703,13 +703,17 @@ def _direct_writes(r, p, ct):
                 hit = n
             elif isinstance(n, ast.Delete) and any(norm(t).startswith("lObjects") for t in n.targets):
                 hit = n
+            elif isinstance(n, ast.Assign) and any(isinstance(t, ast.Subscript) and isinstance(t.slice, ast.Slice) and norm(t.value).startswith(("lObjects", "lFirstList")) for t in n.targets):
+                hit = n  # slice store: replaces a run of elements
+            elif isinstance(n, ast.AugAssign) and norm(n.target).startswith(("lObjects", "lFirstList")) and not isinstance(n.target, ast.Subscript):
+                hit = n  # lObjects += [...]
             if hit is None:
                 continue
             kk = "%s:%s" % (fi.key, norm(hit)[:80])
             vouched = _merge_pattern(fi) | _split_pattern(fi, p, ct)
             if norm(hit) in vouched:
                 r.ok("C04.classify", kk, "part of a verified merge/split pattern (text of the removed elements is carried by the stored token)")
-            elif isinstance(hit, ast.Call) and hit.func.attr == "append" and hit.args and isinstance(hit.args[0], ast.Call) and (
+            elif isinstance(hit, ast.Call) and isinstance(hit.func, ast.Attribute) and hit.func.attr == "append" and hit.args and isinstance(hit.args[0], ast.Call) and (
                 (not hit.args[0].args and ct.const_value.get(_cls_key(p, fi, hit.args[0].func)) == "") or (hit.args[0].args and isinstance(hit.args[0].args[0], ast.Constant) and hit.args[0].args[0].value == "")
             ):
                 r.ok("C04.classify", kk, "appends a token with empty text")
@@ -861,6 +865,8 @@ def _clean(r, ctx):
 
 _T = "vsg/tokens.py"
 VARIANTS = [
+    Variant("C04", "delimited-comment merge keeps only the text tokens of the replaced run", "fire",
+            [("vsg/vhdlFile/classify/comment.py", "        sNewValue = \"\"\n        for iIndex in range(iStartIndex, iEndIndex + 1):\n            sNewValue += lObjects[iIndex].get_value()\n        del lObjects[iStartIndex : iEndIndex + 1]\n        lObjects.insert(iStartIndex, token.text(sNewValue))", "        lText = [oToken.get_value() for oToken in lObjects[iStartIndex : iEndIndex + 1] if isinstance(oToken, token.text)]\n        lObjects[iStartIndex : iEndIndex + 1] = [token.text(\"\".join(lText))]")], rule="C04.classify"),
     Variant("C04", "reader switches to read().splitlines()", "fire",
             [("vsg/vhdlFile/utils.py", "        lLines = []\n        for sLine in oFile:\n            lLines.append(sLine.rstrip(\"\\r\\n\"))\n        return lLines", "        return oFile.read().splitlines()")], rule="C04.reader"),
     Variant("C04", "reader strips trailing blanks", "fire",
